@@ -58,8 +58,12 @@ fn summ_float<T: F>(case: &Value, out: &mut Vec<Value>) {
     };
     // mu_p of the scaled data divided by 2^(p*sexp) (exact) is mu_p of the unscaled data
     let unscale = |v: T, pw: i32| -> T { T::f(v.g() * pow2(-pw * sexp)) };
-    // an observation of weight zero that holds a value whose square is not representable
+    // optional non-finite observations: [position, kind] with kind 1 = +inf, 2 = -inf, 3 = NaN
     let mut xs = xs;
+    if let Some(sp) = case.get("specials").and_then(|x| x.as_array()) {
+        for it in sp { let p = it[0].as_i64().unwrap() as usize; if p < xs.len() { xs[p] = match it[1].as_i64().unwrap() { 1 => T::infinity(), 2 => T::neg_infinity(), _ => T::nan() }; } }
+    }
+    // an observation of weight zero that holds a value whose square is not representable
     if case.get("huge0").and_then(|x| x.as_bool()).unwrap_or(false) && w.first() == Some(&0) {
         xs[0] = T::f(if T::NAME == "f32" { pow2(100) } else { pow2(600) } * if r[0] < 0 { -1.0 } else { 1.0 });
     }
@@ -501,7 +505,9 @@ pub fn gen(seed: u64, count: usize, tier: &str, params: &Params) -> Vec<Value> {
                 let w: Vec<i64> = match rng.below(4) { 0 => (0..wl).map(|_| rng.range(0, 1)).collect(), 1 => (0..wl).map(|_| rng.range(-3, 3)).collect(),
                                                        2 => vec![0; wl], _ => (0..wl).map(|_| rng.range(0, 5)).collect() };
                 let ty = *rng.pick(&["f64", "f64", "f32"]);
-                cases.push(json!({"ev": "summ", "stat": *rng.pick(&["wsum_axis", "wmean_axis", "wvar_axis", "wstd_axis", "wstd_axis"]), "ty": ty, "r": r, "w": w, "S": 4,
+                // sometimes an infinite or NaN observation (under a zero weight as often as not)
+                let specials: Vec<Value> = if rng.chance(1, 3) { (0..rng.range(1, 2)).map(|_| json!([rng.below(n as u64), rng.range(1, 3)])).collect() } else { vec![] };
+                cases.push(json!({"ev": "summ", "stat": *rng.pick(&["wsum_axis", "wmean_axis", "wvar_axis", "wstd_axis", "wstd_axis"]), "ty": ty, "r": r, "w": w, "S": 4, "specials": specials,
                                   "WS": *rng.pick(&[1i64, 4, 4, 16]), "d": rng.range(0, 2), "wexp": 0, "bexp": -1, "qe": 4, "tol": 2, "shape": shape, "axis": axis, "pair_only": true,
                                   "lay1": lay1, "lay2": lay2, "wlay": *rng.pick(&["plain", "rev", "step"])}));
             }
